@@ -114,9 +114,16 @@ for line in sys.stdin:
                                   stdin=subprocess.PIPE, stdout=subprocess.PIPE,
                                   stderr=subprocess.DEVNULL, text=True, env=e)
         self.calls = 0
+        self.log = []        # every request sent to this process, in order (the call history of its athlib import)
+
+    def _note(self, entry):
+        self.log.append(entry)
+        if len(self.log) > 6000:
+            del self.log[:2000]
 
     def eval(self, expr, setup=None):
         self.calls += 1
+        self._note(('eval', expr, setup))
         self.p.stdin.write(json.dumps({'expr': expr, 'setup': setup, 'script': None}) + "\n")
         self.p.stdin.flush()
         while True:
@@ -133,6 +140,7 @@ for line in sys.stdin:
     def run_script(self, script):
         """exec a replay script in the plain process; returns (exit code, stdout)"""
         self.calls += 1
+        self._note(('script', script, None))
         self.p.stdin.write(json.dumps({'script': script}) + "\n")
         self.p.stdin.flush()
         while True:
@@ -150,6 +158,68 @@ for line in sys.stdin:
             self.p.wait(timeout=5)
         except Exception:
             self.p.kill()
+
+
+HISTORY_PRELUDE = r'''
+# --- earlier calls made in the same process (the history this violation needs in order to show) ---
+import io as _io, contextlib as _ctx, athlib as _athlib
+_H = %s
+_G = {'athlib': _athlib}
+exec("from decimal import Decimal\nimport datetime, re, math", _G)
+for _kind, _a, _b in _H:
+    try:
+        with _ctx.redirect_stdout(_io.StringIO()):
+            if _kind == 'eval':
+                if _b:
+                    exec(_b, _G)
+                eval(_a, _G)
+            else:
+                exec(_a, {'__name__': '__replay__'})
+    except BaseException:
+        pass
+# --- the call under test ---
+'''
+
+
+def history_prelude(history):
+    return HISTORY_PRELUDE % repr([list(h) for h in history])
+
+
+def fresh_eval(expr, setup, history=()):
+    """evaluate expr in a new plain process after replaying `history` (a list of PlainWorker log entries) in it"""
+    w = PlainWorker()
+    try:
+        if history:
+            w.run_script(history_prelude(history))
+        return w.eval(expr, setup)
+    finally:
+        w.close()
+
+
+def fresh_script(script, history=()):
+    w = PlainWorker()
+    try:
+        return w.run_script((history_prelude(history) if history else '') + script)
+    finally:
+        w.close()
+
+
+def minimal_history(log, reproduces, cap=3000):
+    """shortest piece of `log` found (by bisection on the start index, then the single first entry) after which
+    reproduces(history) still holds; None when even the whole log does not reproduce"""
+    full = list(log)[-cap:]
+    if not full or not reproduces(full):
+        return None
+    lo, hi = 0, len(full) - 1          # invariant: full[lo:] reproduces
+    while lo < hi:
+        mid = (lo + hi + 1) // 2
+        if reproduces(full[mid:]):
+            lo = mid
+        else:
+            hi = mid - 1
+    if reproduces([full[lo]]):
+        return [full[lo]]
+    return full[lo:]
 
 
 class Check:
